@@ -526,7 +526,8 @@ class Polyhedron(Shape3D):
         if centered:
             simplices -= self.center
 
-        volumes = np.abs(np.linalg.det(simplices) / 6)
+        # Signed volumes: tetrahedra not facing the reference point must subtract.
+        volumes = np.linalg.det(simplices) / 6
 
         def triangle_integrate(f):
             r"""Integrate f over the simplices.
